@@ -32,6 +32,11 @@ theorem fact_validator_scope :
     Facts.C09.serviceValidatorChecks = ["verifyDocumentEntryID"] ∧
     Facts.C09.serviceTypeUniquenessChecked = true := by decide
 
+/-- `verifyThumbprint` compares the fragment with the thumbprint it calculates from the key material (model: `thumb k`,
+    a function of the key alone); it does not read the id back through `jwk.AssignKeyID`/`KeyID()`, which would
+    trust a "kid" member inside the publicKeyJwk (repaired defect, witness harness/corpus/C09/vm-id-named-by-jwk-kid.jsonl) -/
+theorem fact_thumbprint_from_key_material : Facts.C09.thumbprintCalculatedFromKeyMaterial = true := by decide
+
 /-- the depth limit the concrete instances below are stated for -/
 theorem fact_max_controller_depth : Facts.C09.maxControllerDepth = 5 := by decide
 
